@@ -506,6 +506,16 @@ def ecc_cases(c, r):
             ("x-negative", dict(point_x=x - p, point_y=y), X, "coordinate-negative", OR),
             ("y-negative", dict(point_x=x, point_y=y - p), X, "coordinate-negative", OR),
         ]
+        # valid points with a special coordinate value (x = 0 where the curve has such a point, the smallest x), alone and
+        # together with a private scalar they do not belong to
+        z0 = ec.w_lift_x(c, 0, 0)
+        sxp = small_x_point(c)
+        for lab, P in (("x-is-0", z0), ("x-is-0-negated", None if z0 is None else (0, p - z0[1])), ("smallest-x", sxp)):
+            if P is None:
+                continue
+            out.append(("valid/point-" + lab, dict(point_x=P[0], point_y=P[1]), V, None, None))
+            out.append(("d-with-point-" + lab, dict(d=d1, point_x=P[0], point_y=P[1]), X if ec.w_mul(c, d1, c.G) != P else V,
+                        "weierstrass-d-vs-point-mismatch", MM))
         for lab, P in (("y-plus-1", (x, (y + 1) % p)), ("x-plus-1", ((x + 1) % p, y)), ("x-y-swapped", (y, x)), ("y-is-0", (x, 0)),
                        ("y-bit-flipped", (x, y ^ (1 << r.randrange(c.bits - 1)))), ("x-bit-flipped", (x ^ (1 << r.randrange(c.bits - 1)), y)),
                        ("twist-abscissa", (no_sqrt_x(c, r), y)), ("point-of-another-curve", (3, 5))):
@@ -539,6 +549,10 @@ def ecc_cases(c, r):
             ("seed-with-negated-point", dict(seed=s1, point_x=p - x, point_y=y), X, "edwards-seed-vs-point-mismatch", MM),
             ("seed-with-generator", dict(seed=s1, point_x=c.Gx, point_y=c.Gy), X, "edwards-seed-vs-point-mismatch", MM),
             ("seed-bit-flipped-with-point", dict(seed=bytes([s1[0] ^ 1]) + s1[1:], point_x=x, point_y=y), X, "edwards-seed-vs-point-mismatch", MM),
+            # a seed together with the points whose x is 0 (neutral element, point of order 2): whatever the reason given,
+            # these do not match the seed and no key may come back
+            ("seed-with-order-2-point", dict(seed=s1, point_x=0, point_y=p - 1), X, "edwards-seed-vs-point-mismatch", MM),
+            ("seed-with-neutral-point", dict(seed=s1, point_x=0, point_y=1), X, "edwards-seed-vs-point-mismatch", MM),
             ("seed-too-short", dict(seed=s1[:-1]), X, "seed-length", "other"),
             ("seed-too-long", dict(seed=s1 + b"\0"), X, "seed-length", "other"),
             ("seed-empty", dict(seed=b""), X, "seed-length", "other"),
